@@ -362,6 +362,38 @@ def impl_main(payload):
     if np.asarray(r).shape != (3, 1) or not np.all(np.isnan(r)):
         orc["viol"].append("1/0 from integer commands: evaluate_equation_at returned shape %r values %r, expected a (3, 1) NaN column"
                            % (np.asarray(r).shape, np.asarray(r).tolist()))
+    # data-independent sub-expressions (integer commands, constants given as plain Python numbers): a power of a negative base
+    # with a fractional exponent has no real value - the result must be NaN there, never a complex or a finite number
+    for stack, consts, what in (
+            ([[-1, -2, -2], [-1, 1, 1], [-1, 2, 2], [5, 1, 2], [10, 0, 3], [0, 0, 0], [2, 4, 5]], [], "(-2)^(1/2) + X_0"),
+            ([[-1, -8, -8], [-1, 1, 1], [-1, 3, 3], [5, 1, 2], [10, 0, 3], [0, 0, 0], [4, 4, 5]], [], "(-8)^(1/3) * X_0"),
+            ([[1, 0, 0], [1, 1, 1], [10, 0, 1], [0, 0, 0], [4, 2, 3]], [-3.0, 0.5], "(C_0^C_1) * X_0 with C = [-3.0, 0.5] as Python floats"),
+            ([[1, 0, 0], [1, 1, 1], [10, 0, 1], [0, 0, 0], [2, 2, 3]], (-1.5, 2.5), "C_0^C_1 + X_0 with C = (-1.5, 2.5) as Python floats")):
+        for op in (10, 13):           # POWER and SAFE_POWER (|a|^b: defined)
+            st = [[op if r[0] == 10 else r[0], r[1], r[2]] for r in stack]
+            g = AGraph()
+            g.command_array = np.array(st, dtype=int)
+            if consts:
+                g.set_local_optimization_params(consts)
+            x = np.array([[0.5], [2.0], [-1.0]])
+            try:
+                r = g.evaluate_equation_at(x)
+            except Exception as e:  # noqa
+                orc["viol"].append("evaluate_equation_at raised %r for %s (stack %r)" % (e, what, st))
+                continue
+            orc["checks"] += 1
+            r = np.asarray(r)
+            want = [ref_eval(st, x[k], list(consts)) for k in range(3)]
+            if np.iscomplexobj(r) or r.shape != (3, 1):
+                orc["viol"].append("%s (stack %r, command %d): evaluation returned dtype %s shape %r values %r; the real expression has values %r"
+                                   % (what, st, op, r.dtype, r.shape, r.reshape(-1).tolist(), want))
+                continue
+            for k in range(3):
+                gv = float(r[k, 0])
+                if (math.isnan(want[k]) and not math.isnan(gv)) or (math.isfinite(want[k]) and not abs(gv - want[k]) <= 1e-9 * (1 + abs(want[k]))):
+                    orc["viol"].append("%s (stack %r, command %d) at x=%r: evaluation returned %r, the real expression has value %r"
+                                       % (what, st, op, x[k].tolist(), gv, want[k]))
+                    break
     return dict(results=results, oracle=orc)
 
 
